@@ -110,8 +110,28 @@ class Poly:
         return acc if acc is not None else z3.RealVal(0)
 
 
+_poly_memo = {}
+_poly_keep = []
+
+
 def polynomial(t) -> Poly:
-    """expand a z3 arithmetic term into a polynomial over canonical atoms"""
+    """expand a z3 arithmetic term into a polynomial over canonical atoms (memoised per term: terms are DAGs)"""
+    t = py_number(t)
+    if is_sym(t):
+        key = t.get_id()
+        hit = _poly_memo.get(key)
+        if hit is not None and hit[0].eq(t):
+            return hit[1]
+        p = _polynomial(t)
+        if len(_poly_memo) > 200000:
+            _poly_memo.clear()
+            del _poly_keep[:]
+        _poly_memo[key] = (t, p)
+        return p
+    return _polynomial(t)
+
+
+def _polynomial(t) -> Poly:
     t = py_number(t)
     if not is_sym(t):
         return Poly.const(Fraction(repr(float(t))) if isinstance(t, float) else Fraction(t))
@@ -243,7 +263,22 @@ def canonical_bool(c):
     return c.sexpr(), c
 
 
+_dep_memo = {}
+
+
 def _depends_on_k(term) -> bool:
+    key = term.get_id()
+    hit = _dep_memo.get(key)
+    if hit is not None and hit[0].eq(term):
+        return hit[1]
+    r = _depends_on_k0(term)
+    if len(_dep_memo) > 300000:
+        _dep_memo.clear()
+    _dep_memo[key] = (term, r)
+    return r
+
+
+def _depends_on_k0(term) -> bool:
     seen = set()
     stack = [term]
     while stack:
@@ -267,6 +302,8 @@ def _index_free_ite_conditions(terms):
         if x.get_id() in seen:
             continue
         seen.add(x.get_id())
+        if not _depends_on_k(x):
+            continue        # index-free subterm: stays a free factor, no case split needed
         if z3.is_app(x) and x.decl().kind() == z3.Z3_OP_ITE:
             c = x.children()[0]
             if not _depends_on_k(c) and not z3.is_true(c) and not z3.is_false(c):
@@ -274,6 +311,54 @@ def _index_free_ite_conditions(terms):
                     out.append(c)
         stack.extend(x.children())
     return out
+
+
+def term_size(t, limit=200):
+    n = 0
+    seen = set()
+    stack = [t]
+    while stack and n <= limit:
+        x = stack.pop()
+        if x.get_id() in seen:
+            continue
+        seen.add(x.get_id())
+        n += 1
+        stack.extend(x.children())
+    return n
+
+
+def name_seq(ex, sq):
+    """definitional extension: give a symbolic-length sequence with large element terms a function symbol F with
+    forall k in [0,n): F(k) = elem(k), so that sums over it stay small atoms.  One name per sequence value."""
+    from .values import Seq
+    if sq.items is not None or sq.uf is not None:
+        return sq
+    memo = ex.ctx.__dict__.setdefault("named_seqs", {})
+    hit = memo.get(id(sq))
+    if hit is not None and hit[0] is sq:
+        return hit[1]
+    probe = z3.Int("$probe")
+    e = sq.get(probe)
+    if not is_sym(e) or z3.is_bool(e) or term_size(e, 40) <= 40:
+        memo[id(sq)] = (sq, sq)
+        return sq
+    # structural memo: sequences with identical element terms and length share one name
+    skey = ("struct", e.sexpr(), to_int(sq.n).sexpr(), sq.kind)
+    hit = memo.get(skey)
+    if hit is not None:
+        memo[id(sq)] = (sq, hit[1])
+        return hit[1]
+    from .values import fresh_name
+    F = z3.Function(fresh_name("seq"), z3.IntSort(), z3.RealSort())
+    k = z3.Int(fresh_name("q"))
+    n = to_int(sq.n)
+    ex.ctx.global_axioms.append(z3.ForAll([k], z3.Implies(z3.And(k >= 0, k < n), F(k) == to_real(sq.get(k))),
+                                          patterns=[F(k)]))
+    named = Seq(sq.kind, sq.n, fn=lambda j, F=F: F(to_int(j)), et="real", uf=F)
+    memo[id(sq)] = (sq, named)
+    memo[skey] = (sq, named)
+    ex.ctx.stats["named_seqs"] = ex.ctx.stats.get("named_seqs", 0) + 1
+    return named
 
 
 def make_sum(ex, lo, hi, bodyfn):
